@@ -15,7 +15,8 @@ Open Scope list_scope.
 
 (* `exact_class O c` = c is a find_cuts call (seeded or not), a from_instruction call, or a generation that does not
    reach the sampler.  Which generations those are (smallest_probability is COMPUTED from the coefficient lists of the
-   bases as weights.py/qpd_basis.py do: prod over bases of the least |coeff|/kappa that is not within 1e-14 of 0): *)
+   bases as weights.py/qpd_basis.py do, but in exact rationals: prod over bases of the least |coeff|/kappa that is not
+   within 1e-14 of 0): *)
 Theorem c09_inf_is_exact : forall (O : oracles) a, exact_class O (GenExact O a) = true.
 Proof. exact inf_exact_class. Qed.
 
@@ -23,12 +24,19 @@ Proof. exact inf_exact_class. Qed.
 Theorem c09_smallest_probability_nonneg : forall bases p, prod_min_nonzero bases = Some p -> (0 <= p)%Q.
 Proof. exact prod_min_nonzero_nonneg. Qed.
 
-Theorem c09_finite_exact_threshold : forall (O : oracles) a n p,
-  smallest_probability O a = Some p -> (1 / n <= p)%Q -> exact_class O (Gen O a (NFin n)) = true.
-Proof. intros O a n p Hp H; simpl. now rewrite (finite_exact_threshold O a n p Hp H). Qed.
+(* PARTIAL: the code compares binary64 values (np.prod(...) >= 1/num_samples); the model only classifies a finite
+   num_samples as all-exact when the exact smallest probability exceeds the exact threshold by the relative margin 2^-40.
+   Missing: the band  1/n <= p < (1/n)(1+2^-40)  and everything below, where the float comparison decides
+   (oracle tail_reaches_sampler; e.g. five cx bases with num_samples = 6^5 = 7776 lie exactly on the boundary in Q and
+   the real code SAMPLES).  That float rounding stays inside the margin is an assumption (see lib/props.d/C09.py). *)
+Theorem c09_finite_exact_margin_partial : forall (O : oracles) a n p,
+  smallest_probability O a = Some p -> (1 / n * (1 + float_margin) <= p)%Q -> exact_class O (Gen O a (NFin n)) = true.
+Proof. intros O a n p Hp H; simpl. now rewrite (finite_exact_margin O a n p Hp H). Qed.
 
-Theorem c09_invalid_num_samples_exact : forall (O : oracles) a n, (n < 1)%Q -> exact_class O (Gen O a (NFin n)) = true.
-Proof. intros O a n H; simpl. now rewrite invalid_never_samples. Qed.
+(* num_samples < 1 is refused (ValueError) before anything is read or written: such a call never samples *)
+Theorem c09_invalid_num_samples_refused_no_sampling : forall (O : oracles) a n, (n < 1)%Q ->
+  reaches_sampler O a (NFin n) = false.
+Proof. exact invalid_never_samples. Qed.
 
 (* the greedy pass assigns to three slots of the shared table the values it has just read *)
 Theorem c09_greedy_writes_identity : forall t, greedy_writes t = t.
@@ -170,6 +178,30 @@ Example demo_finite_but_exact :
   exact_class O_demo (Gen O_demo 2 (NFin (1 # 2))) = true.
 Proof. vm_compute. repeat split. Qed.
 
+(* the boundary the margin is there for: five cx bases, num_samples = 6^5.  In Q the smallest probability EQUALS the
+   threshold; the model makes no claim (the oracle decides; here it says "samples"), matching the real code, which samples *)
+Definition O_five_cx : oracles :=
+  mkO nat unit nat nat nat nat nat (fun z => Z.to_nat z) (fun _ => true) (fun _ => true) (fun _ _ _ a t => a + t)
+      (fun _ => repeat [(1#2); (1#2); (1#2); (-1#2); (1#2); (-1#2)]%Q 5) (fun _ _ => true) (fun s _ _ => S s)
+      (fun _ _ _ => 0) (fun _ _ _ s => s) (fun _ a => a).
+Example demo_float_boundary :
+  option_map Qred (smallest_probability O_five_cx tt) = Some (1 # 7776)%Q /\
+  exact_class O_five_cx (Gen O_five_cx tt (NFin 7776)) = false /\
+  exact_class O_five_cx (Gen O_five_cx tt (NFin 7777)) = true /\
+  exact_class O_five_cx (Gen O_five_cx tt NInf) = true.
+Proof. vm_compute. repeat split. Qed.
+
+(* a history of calls of the three classes only (seeded and unseeded searches, exact and finite-but-exact generations,
+   from_instruction): five different results, the state at the end is the state at the start *)
+Definition h_exact : list (event O_demo) :=
+  [ Call (FindCuts O_demo 4 (Seeded 7)) ; Call (GenExact O_demo 5) ; Call (FromInstruction O_demo 1) ;
+    Call (FindCuts O_demo 3 (Unseeded 9)) ; Call (Gen O_demo 2 (NFin 10)) ].
+Example demo_state_untouched_history :
+  forallb (exact_event O_demo) h_exact = true /\ run O_demo g_demo h_exact = g_demo /\
+  map snd (trace O_demo g_demo h_exact) =
+  [Some (RFind O_demo 3745); Some (RGen O_demo 8); Some (RBasis O_demo 7); Some (RFind O_demo 3934); Some (RGen O_demo 5)].
+Proof. vm_compute. repeat split. Qed.
+
 Example demo_copy :
   res_map an_view (an_copy (action_registry g_demo) (Some (cut_search_groups true false))) =
   Ok ([(None, (None, [None; Some "TwoQubitGates"]));
@@ -192,8 +224,8 @@ Print Assumptions c09_gen_exact_pure.
 Print Assumptions c09_gen_finite_exact_pure.
 Print Assumptions c09_inf_is_exact.
 Print Assumptions c09_smallest_probability_nonneg.
-Print Assumptions c09_finite_exact_threshold.
-Print Assumptions c09_invalid_num_samples_exact.
+Print Assumptions c09_finite_exact_margin_partial.
+Print Assumptions c09_invalid_num_samples_refused_no_sampling.
 Print Assumptions c09_from_instruction_pure.
 Print Assumptions c09_fresh_interpreter.
 Print Assumptions c09_copy_ok.
@@ -240,6 +272,19 @@ Theorem c09_import_state_reachable : forall fuel st (O : oracles) g h,
   import_state g -> import_state (run (O_cf fuel st O) g h).
 Proof. exact import_state_run. Qed.
 
+(* with the fuel bound of C07's termination theorem the result is a real outcome (Some r), never the model's
+   out-of-fuel value: "the same everywhere" cannot be the degenerate None = None *)
+From CKT Require Proofs.CutFinderCirc Proofs.CutFinderFuel.
+From CKT Require Import Proofs.ProcessCFTotalP.
+Theorem c09_seeded_search_model_total : forall fuel st (O : oracles) g0 h a s, import_state g0 ->
+  CutFinderCirc.circ_wf (CutFinder.fi_circ (ca_in a)) ->
+  CutFinderFuel.fuel_bound (length (CutFinder.fi_circ (ca_in a))) <= fuel ->
+  exists r,
+    CutFinder.find_cuts fuel (input_of a (basis_registry g0) (st s)) = Some r /\
+    snd (step (O_cf fuel st O) (run (O_cf fuel st O) g0 h) (FindCuts (O_cf fuel st O) a (Seeded s))) =
+    RFind (O_cf fuel st O) (Some r).
+Proof. exact seeded_search_model_total. Qed.
+
 (* non-vacuity: a triangle of cx on 3 qubits, at most 2 qubits per subcircuit; after a history with interference, a sampled
    generation and an unseeded search the seeded search returns the two gate cuts the search model computes *)
 Definition cf_q2 := Circ.Qpd2 0 None (Some (0, None)).
@@ -267,6 +312,34 @@ Proof.
   apply f_equal. vm_compute. reflexivity.
 Qed.
 
+(* the tape IS read by the search: a ring of four cx, at most 3 qubits per subcircuit, gate cuts only.  All cut pairs
+   cost 81; which pair is returned is decided by the random tie-break: seeds 1, 2, 6 give three different answers.
+   fuel 2000 >= fuel_bound 4 = 784, so the premises of c09_seeded_search_model_total hold as well. *)
+Definition ring4 : Circ.circ := map (fun i => Circ.mkI (Circ.Gate 0) [i; Nat.modulo (S i) 4] []) (seq 0 4).
+Definition ring4_a : cf_args :=
+  mkCA (CutFinder.mkIn 4 0 ring4 [] 3 true false 1024%Q (Some 10000%Z) (fun _ => 0%Q)) (fun _ => [(0, (3%Q, cf_q2))]).
+Definition prn (k : Z) : nat -> Q := fun n => let z := Z.of_nat n in (Z.modulo (z * z * k + 3 * z * k + 5 * k + z) 13 # 13)%Q.
+Definition cuts_of (o : option (res (Circ.circ * CutFinder.metadata))) :=
+  match o with Some (Ok (_, m)) => Some (CutFinder.md_cuts m) | _ => None end.
+Example demo_seed_decides :
+  map (fun k => cuts_of (CutFinder.find_cuts 2000 (input_of ring4_a [] (prn k)))) [1; 2; 6]%Z =
+  [Some [(CutFinder.GateCut, 2); (CutFinder.GateCut, 3)]; Some [(CutFinder.GateCut, 1); (CutFinder.GateCut, 3)];
+   Some [(CutFinder.GateCut, 0); (CutFinder.GateCut, 3)]] /\
+  CutFinderFuel.fuel_bound (length (CutFinder.fi_circ (ca_in ring4_a))) <= 2000.
+Proof. split; [vm_compute; reflexivity|]. vm_compute. repeat constructor. Qed.
+
+(* a registry copy without the TwoQubitGates group (here: the empty container): AssertionError as soon as a gate is
+   expanded; a circuit without two-qubit gates is not affected; the refusals come first *)
+Example demo_missing_group :
+  find_cuts_reg 200 (Ok an_empty) import_funcs ["cx"] cf_a (cf_st 5) = Some Crashed /\
+  find_cuts_reg 200 (Ok an_empty) import_funcs ["cx"]
+    (mkCA (CutFinder.mkIn 3 0 [] [] 2 true true 1024%Q None (fun _ => 0%Q)) (fun _ => [])) (cf_st 5)
+    = Some (Ok ([], CutFinder.mkMD [] 1%Q true)) /\
+  find_cuts_reg 200 (Ok an_empty) import_funcs ["cx"]
+    (mkCA (CutFinder.mkIn 3 0 [] [] 0 true true 1024%Q None (fun _ => 0%Q)) (fun _ => [])) (cf_st 5) = Some Refused.
+Proof. vm_compute. repeat split. Qed.
+
+Print Assumptions c09_seeded_search_model_total.
 Print Assumptions c09_registry_yields_search_actions.
 Print Assumptions c09_seeded_search_model.
 Print Assumptions c09_search_model_any_tape.
